@@ -448,6 +448,19 @@ func papply(prev *ring.PartitionRingDesc, u pupdate, now time.Time) *ring.Partit
 	return next
 }
 
+// shardStr: what a shard exposes — its partitions and, per partition, its owners (a shard is a ring of its own)
+func shardStr(s *ring.PartitionRing) string {
+	var owners []string
+	for _, id := range s.PartitionIDs() {
+		o := s.PartitionOwnerIDsCopy(id)
+		sort.Strings(o)
+		m := s.MultiPartitionOwnerIDs(id, nil)
+		sort.Strings(m)
+		owners = append(owners, fmt.Sprintf("%d:%v/%v", id, o, m))
+	}
+	return fmt.Sprint(s.PartitionIDs(), s.ActivePartitionIDs(), owners)
+}
+
 func panswers(pr *ring.PartitionRing, now time.Time, flip bool) []string {
 	var out []string
 	add := func(n, v string) { out = append(out, n+" = "+v) }
@@ -473,7 +486,7 @@ func panswers(pr *ring.PartitionRing, now time.Time, flip bool) []string {
 			if err != nil {
 				add(fmt.Sprintf("ShuffleShard(%s,%d)", tenant, size), "err "+err.Error())
 			} else {
-				add(fmt.Sprintf("ShuffleShard(%s,%d)", tenant, size), fmt.Sprint(s.PartitionIDs(), s.ActivePartitionIDs()))
+				add(fmt.Sprintf("ShuffleShard(%s,%d)", tenant, size), shardStr(s))
 			}
 			for _, dt := range times {
 				s, err := pr.ShuffleShardWithLookback(tenant, size, 100*time.Second, now.Add(time.Duration(dt)*time.Millisecond))
@@ -481,7 +494,7 @@ func panswers(pr *ring.PartitionRing, now time.Time, flip bool) []string {
 				if err != nil {
 					add(n, "err "+err.Error())
 				} else {
-					add(n, fmt.Sprint(s.PartitionIDs(), s.ActivePartitionIDs()))
+					add(n, shardStr(s))
 				}
 			}
 		}
